@@ -103,25 +103,35 @@ fn roundtrip(s: &str, via_runtime: bool) -> Result<Info, (String, String)> {
                 }
             }
         }
-        if via_runtime {
-            let mut term = Term::new();
-            let mut o = Opts::default();
-            term.line(s, &mut o);
-            term.line("LIST", &mut o);
-            let listed: Vec<String> = term.take().into_iter().filter_map(|e| if let Ev::List(t, _) = e { Some(t) } else { None }).collect();
-            if m0.is_ok() && listed != vec![t1.clone()] {
-                return Err(("runtime-list-differs".into(), format!("{:?}: LIST shows {:?}, Line::to_string gives {:?}", s, listed, t1)));
+    }
+    if via_runtime && num0.is_some() && !tok0.is_empty() && s.len() <= 2100 {
+        let mut term = Term::new();
+        let mut o = Opts::default();
+        term.line(s, &mut o);
+        term.line("LIST", &mut o);
+        let listed: Vec<String> = term.take().into_iter().filter_map(|e| if let Ev::List(t, _) = e { Some(t) } else { None }).collect();
+        if m0.is_ok() && listed.is_empty() && s.len() <= 1024 && t1.len() <= 1024 {
+            return Err(("runtime-list-differs".into(), format!("{:?}: a line that parses and fits the line limit ({} bytes typed, {} listed) was not stored", s, s.len(), t1.len())));
+        }
+        if m0.is_ok() && !listed.is_empty() && listed != vec![t1.clone()] {
+            return Err(("runtime-list-differs".into(), format!("{:?}: LIST shows {:?}, Line::to_string gives {:?}", s, listed, t1)));
+        }
+        // SAVE then LOAD from the runtime's side: what the runtime stored must load
+        if !listed.is_empty() && m0.is_ok() {
+            let text = listed[0].clone();
+            if let Ok(Err(e)) = guarded(|| Listing::default().load_str(&text).map_err(|e| e.to_string())) {
+                return Err(("saved-line-does-not-load".into(), format!("{:?} ({} bytes) was accepted at the prompt; its listing ({} bytes, {} characters) is refused by the loader: {}", s, s.len(), text.len(), text.chars().count(), e)));
             }
-            // TAB edit: the listed text typed again stores the same line
-            if !listed.is_empty() && m0.is_ok() {
-                let mut term2 = Term::new();
-                term2.line(&listed[0], &mut o);
-                term2.take();
-                term2.line("LIST", &mut o);
-                let again: Vec<String> = term2.take().into_iter().filter_map(|e| if let Ev::List(t, _) = e { Some(t) } else { None }).collect();
-                if again != listed {
-                    return Err(("listed-text-does-not-re-enter".into(), format!("{:?} is stored and listed as {:?} ({} bytes); typing that text again gives the listing {:?}", s, listed, listed[0].len(), again)));
-                }
+        }
+        // TAB edit: the listed text typed again stores the same line
+        if !listed.is_empty() && m0.is_ok() {
+            let mut term2 = Term::new();
+            term2.line(&listed[0], &mut o);
+            term2.take();
+            term2.line("LIST", &mut o);
+            let again: Vec<String> = term2.take().into_iter().filter_map(|e| if let Ev::List(t, _) = e { Some(t) } else { None }).collect();
+            if again != listed {
+                return Err(("listed-text-does-not-re-enter".into(), format!("{:?} is stored and listed as {:?} ({} bytes); typing that text again gives the listing {:?}", s, listed, listed[0].len(), again)));
             }
         }
     }
